@@ -565,3 +565,21 @@ func cmdCalls() {
 		visit(w.fns[k])
 	}
 }
+
+// cmdWire lists every wire obligation that does not hold on the current tree (a development aid: the pins are written from
+// the engine's own rendering of the field types).
+func cmdWire() {
+	w, err := loadWorld()
+	if err != nil {
+		fmt.Println("engine error:", err)
+		return
+	}
+	n := 0
+	for _, o := range w.wireObligations("") {
+		n++
+		if o.Result != "unsat" {
+			fmt.Printf("%s\t%s\t%s\n", o.Name, o.Src, o.Model)
+		}
+	}
+	fmt.Printf("%d wire obligations\n", n)
+}
